@@ -78,6 +78,11 @@ func (p *levelQuoteProvider) GetRawQuote(reportData [64]byte) ([]uint8, error) {
 }
 
 func (c *extractCommand) levelQuoteProvider(p extract.LeveledQuoteProvider) extract.QuoteProvider {
+	// Without a quote provider on this machine there is nothing to wrap: a non-nil wrapper around
+	// nil would be taken for a usable provider and called.
+	if p == nil {
+		return nil
+	}
 	return &levelQuoteProvider{p: p, vmpl: c.vmpl}
 }
 
